@@ -395,6 +395,17 @@ fn purity() {
         let r2 = q(&s.app);
         check_native(&format!("same_query_twice_same_answer:{}", name), r1 == r2, || format!("{} vs {}", r1, r2));
     }
+    // found missing by seed C10g: state can also change through App::init_modules — a validator
+    // registered AFTER the list queries were asked must show up in them (they agree with the point query)
+    let late = "valoper-late".to_string();
+    let block = s.app.block_info();
+    let r = s.app.init_modules(|router, api, storage| {
+        router.staking.add_validator(api, storage, &block, cosmwasm_std::Validator::new(late.clone(), cosmwasm_std::Decimal::percent(5), cosmwasm_std::Decimal::one(), cosmwasm_std::Decimal::one()))
+    });
+    check_native("late_validator_registered", r.is_ok(), || format!("{:?}", r.as_ref().err().map(|e| e.to_string())));
+    let single = s.app.wrap().query_validator(late.clone()).ok().flatten().is_some();
+    let listed = s.app.wrap().query_all_validators().map(|vs| vs.iter().any(|v_| v_.address == late)).unwrap_or(false);
+    check_native("list_query_agrees_with_point_query_after_a_later_registration", single && listed, || format!("point query: {}, listed: {}", single, listed));
     witness("all_queries");
 }
 
